@@ -1,6 +1,8 @@
 import Np.Proofs.Dispatch
 import Np.Model.Patterns
 import Np.Proofs.ConstPatterns
+import Np.Model.Signatures
+import Np.Generated.Signatures
 /-! C11 — on constant polynomials every mirrored function behaves exactly like numpy: pattern theorems and the
 completeness of the classification over the regenerated registries -/
 namespace Np.Props.C11
@@ -130,6 +132,18 @@ theorem const_compare {n : Nat} (lt : R → R → Bool) (op : CmpOp) (graded rev
   ⟨compareArr_const lt op graded reverse a b ca cb ha hb h1 h2 i, equalArr_const a b ca cb ha hb h1 h2 i,
     notEqualArr_const a b ca cb ha hb h1 h2 i⟩
 end patterns
+
+/-! ### the argument lists mirror numpy's (table regenerated from /repo and the installed numpy on every run) -/
+
+/-- table obligation: for every registered function, the implementation's positional parameters carry numpy's names
+in numpy's order and every default it shares with numpy has numpy's value — except the deviations that were read and
+judged in `Np.Sig.reviewed` (harmless renamings of the first parameter, equivalent defaults, and the recorded
+finding D29). A swapped parameter order or a changed default breaks this obligation even if no test calls the
+function that way. -/
+theorem signatures_mirror_numpy : Np.Sig.unreviewed Np.Generated.signatures = [] := by decide +kernel
+
+/-- the table is not vacuous: it covers every registry entry for which numpy publishes a signature -/
+theorem signatures_cover : 80 ≤ (Np.Generated.signatures.filter fun e => e.np.isSome).length := by decide +kernel
 
 /-- non-vacuity: numpy.negative on the constant [2, -1] stored with a retained zero column -/
 example : (unaryDispatch false true (fun x : Int => -x)
